@@ -186,7 +186,7 @@ def check_text(s):
         raise Violation("text-words-changed", f"{s.split()!r} -> {r.split()!r}"[:300], case)
 
 
-_ws = st.sampled_from([" ", "\t", "\n", "\xa0", "  ", " ", " ", "\r", "\x0b", " \xa0 "])
+_ws = st.sampled_from([" ", "\t", "\n", "\xa0", "  ", "\u2003", "\u3000", "\r", "\x0b", " \xa0 ", "\x0c", "\x1c", "\x1f", "\x85", "\u2028", "\u2029", "\u200b", "\ufeff"])
 _word = st.one_of(st.text(st.characters(blacklist_categories=("Cs", "Zs", "Cc")), min_size=1, max_size=6),
                   st.sampled_from(["w", "word", "é", "a\tb", "x\xa0y", "0"]))
 text_strategy = st.one_of(st.lists(st.one_of(_ws, _ws, _word), max_size=12).map("".join),
